@@ -1,3 +1,129 @@
-(* C17 — partitioners keep their contract and the producer honours their choice. (theorems follow) *)
-From Coq Require Import List ZArith.
-From SV Require Import C17.Model.
+(* C17 — partitioners keep their contract and the producer honours their choice.
+   Property statements only; each is closed by [exact] of a lemma proved in C17/Proofs*.v.
+   The model (C17/Model.v) is the repaired tree (WithCustomFallbackPartitioner stores its argument);
+   [new_custom_pinned] is the wiring of the pinned tree. *)
+From Coq Require Import List ZArith Sorted.
+From SV Require Import Gen.GoInt Gen.DecTypes Gen.DecC17 C17.Model C17.Proofs C17.ProofsRoute C17.ProofsTie.
+Import ListNotations.
+Open Scope Z_scope.
+
+(* Every constructor / option combination a caller can write yields a well-formed hash partitioner. *)
+Theorem c17_constructors_wf :
+  wf_hashp new_hash /\ wf_hashp new_reference_hash /\
+  (forall hf, hash_ok hf -> wf_hashp (new_custom_hash hf)) /\
+  (forall opts, Forall opt_wf opts -> wf_hashp (new_custom opts)).
+Proof. exact constructors_wf. Qed.
+Print Assumptions c17_constructors_wf.
+
+(* Random, round-robin and every well-formed hash partitioner: for every message, every count 1 <= n < 2^31 and every
+   oracle value, the outcome is a partition in [0,n) or the error of the key encoder / hasher — never a panic or a
+   non-returning call — and the partitioner stays well-formed. Covers Sum32() = 0x80000000. *)
+Theorem c17_range : forall p m n r, builtin_ok p -> 1 <= n <= 2147483647 -> 0 <= r < n ->
+  in_range_outcome m n (fst (Model.partition p m n r)) /\ builtin_ok (snd (Model.partition p m n r)).
+Proof. exact range. Qed.
+Print Assumptions c17_range.
+
+Theorem c17_range_min_int_hash : forall ra n, 1 <= n <= 2147483647 -> 0 <= hash_choice ra 2147483648 n < n.
+Proof. exact range_min_int_hash. Qed.
+Print Assumptions c17_range_min_int_hash.
+
+(* Equal non-nil keys get equal outcomes, whatever else differs (other message fields, the random oracle); the
+   partitioner is unchanged by the call, so this holds across any number of calls. *)
+Theorem c17_consistent : forall p m1 m2 n r1 r2, m_key m1 = m_key m2 -> m_key m1 <> KNil ->
+  Model.partition (PHash p) m1 n r1 = Model.partition (PHash p) m2 n r2.
+Proof. exact consistent. Qed.
+Print Assumptions c17_consistent.
+
+(* The reference variant computes toPositive(h) mod n of Kafka's Java client for the same 32-bit hash h. *)
+Theorem c17_reference_is_java : forall fb hf b h n m r, hash_ok hf -> 1 <= n -> m_key m = KBytes b -> hf b = HSum h ->
+  fst (Model.partition (PHash (HashP fb hf true)) m n r) = Chose (java_to_positive h mod n).
+Proof. exact reference_is_java. Qed.
+Print Assumptions c17_reference_is_java.
+
+(* Any n consecutive round-robin calls with constant count n, from any reachable cursor, hit each partition exactly once. *)
+Theorem c17_roundrobin_cycles : forall c n, cursor_ok c -> 1 <= n <= 2147483647 ->
+  let l := rr_run c n (Z.to_nat n) in
+  length l = Z.to_nat n /\ NoDup l /\ (forall x, In x l <-> 0 <= x < n).
+Proof. exact roundrobin_cycles. Qed.
+Print Assumptions c17_roundrobin_cycles.
+
+(* rr_run is what Partition() returns call after call; every cursor reached from 0 is [cursor_ok]. *)
+Theorem c17_roundrobin_calls : forall ms c n, partition_run (PRoundRobin c) ms n = map Chose (rr_run c n (length ms)).
+Proof. exact partition_run_rr. Qed.
+Print Assumptions c17_roundrobin_calls.
+
+Theorem c17_roundrobin_reachable : forall ns c, cursor_ok c -> Forall (fun n => -2147483648 <= n <= 2147483647) ns ->
+  cursor_ok (fold_left (fun c n => snd (rr_partition c n)) ns c).
+Proof. exact rr_reachable_cursor. Qed.
+Print Assumptions c17_roundrobin_reachable.
+
+Theorem c17_manual : forall m n r, Model.partition PManual m n r = (Chose (m_partition m), PManual).
+Proof. exact manual_returns_own. Qed.
+Print Assumptions c17_manual.
+
+(* partitionMessage: a message is routed exactly to partitions[choice] of the offered list (all partitions for
+   messages that require consistency, the writable ones otherwise); an out-of-range choice or an empty list is an
+   error, and on an error the topic producer hands the message to nobody. *)
+Theorem c17_route : route_spec.
+Proof. exact route_correct. Qed.
+Print Assumptions c17_route.
+
+(* The lists the client offers: sorted ids; all partitions of the topic / those with a leader. *)
+Theorem c17_offered_sets : forall md ps,
+  (client_partitions md = COk ps -> Sorted Z.le ps /\ ps <> [] /\ forall t, In t ps <-> has_partition md t) /\
+  (client_writable md = COk ps -> Sorted Z.le ps /\ forall t, In t ps <-> has_leader md t).
+Proof. exact offered_sets. Qed.
+Print Assumptions c17_offered_sets.
+
+(* Over a whole run of a topic producer: every hand-off goes to a partition of the topic, and to one with a leader
+   unless the message required consistency. *)
+Theorem c17_route_run : forall ms p md t id, In (HandOff t id) (dispatch_run p ms md) ->
+  exists m r, In (id, m, r) ms /\ if requires_consistency p m then has_partition md t else has_leader md t.
+Proof. exact dispatch_run_rule. Qed.
+Print Assumptions c17_route_run.
+
+(* The pinned tree's WithCustomFallbackPartitioner (hp.random = hp): a keyless message never returns, for every
+   call depth; hence the range statement is false of the pinned wiring. *)
+Theorem c17_fallback_refuted :
+  (forall opts a m n r, In (OFallback a) opts -> m_key m = KNil ->
+     (forall fuel, hash_partition_fuel fuel (new_custom_pinned opts) m n r = None) /\
+     fst (Model.partition (PHash (new_custom_pinned opts)) m n r) = Diverge) /\
+  ~ (forall opts m n r, Forall opt_wf opts -> 1 <= n <= 2147483647 -> 0 <= r < n ->
+       in_range_outcome m n (fst (Model.partition (PHash (new_custom_pinned opts)) m n r))).
+Proof. exact fallback_refuted. Qed.
+Print Assumptions c17_fallback_refuted.
+
+(* [Diverge] in the model means exactly that no call depth suffices. *)
+Theorem c17_diverge_meaning : forall p m n r,
+  hash_partition p m n r = Diverge <-> forall fuel, hash_partition_fuel fuel p m n r = None.
+Proof. exact diverge_iff_no_depth_suffices. Qed.
+Print Assumptions c17_diverge_meaning.
+
+(* The repaired option: keyless messages are served by the partitioner that was passed in. *)
+Theorem c17_fallback_fixed : forall opts q m n r, m_key m = KNil ->
+  hash_partition (new_custom (opts ++ [OFallback (Some q)])) m n r = hash_partition q m n r.
+Proof. exact fallback_fixed. Qed.
+Print Assumptions c17_fallback_fixed.
+
+(* ---- the model functions equal the definitions regenerated from partitioner.go (decgen golden coq/Gen/DecC17.v) ---- *)
+Theorem c17_tie_manual : forall m n r,
+  fst (Model.partition PManual m n r) = Chose (fst (DecC17.manual_partition n (m_partition m))) /\
+  snd (DecC17.manual_partition n (m_partition m)) = ENil.
+Proof. exact tie_manual. Qed.
+Print Assumptions c17_tie_manual.
+
+Theorem c17_tie_round_robin : forall c n,
+  Model.rr_partition c n = (let '(c', ret, _) := DecC17.round_robin_partition c n in (ret, c')) /\
+  snd (DecC17.round_robin_partition c n) = ENil.
+Proof. exact tie_round_robin. Qed.
+Print Assumptions c17_tie_round_robin.
+
+Theorem c17_tie_hash_choice : forall ra h n, Model.hash_choice ra h n = fst (DecC17.hash_choice n ra h).
+Proof. exact tie_hash_choice. Qed.
+Print Assumptions c17_tie_hash_choice.
+
+Theorem c17_tie_hash_partition : forall hf ra m n r, 0 < n ->
+  Model.hash_partition (HashP FbRandom hf ra) m n r =
+  gen_out (DecC17.hash_partition n (key_is_nil m) r ENil (encode_err m) (write_err hf m) ra (hash_of hf m)).
+Proof. exact tie_hash_partition. Qed.
+Print Assumptions c17_tie_hash_partition.
